@@ -130,12 +130,10 @@ class DenseBlockDiagonalOperator(AbstractLinearOperator):
         transpose_axis = transpose_axis_as_set.pop()
 
         # we swap the transpose and sum axes
-        sum_axis_number = lefts.index(sum_axis)
-        transpose_axis_number = lefts.index(transpose_axis)
-        lefts_as_list = list(lefts)
-        lefts_as_list[sum_axis_number] = transpose_axis
-        lefts_as_list[transpose_axis_number] = sum_axis
-        lefts = ''.join(lefts_as_list)
+        # every occurrence is swapped: a letter can be repeated in the blocks subscripts (diagonal)
+        lefts = lefts.translate(
+            str.maketrans(sum_axis + transpose_axis, transpose_axis + sum_axis)
+        )
 
         transpose_axis_number = results.index(transpose_axis)
         results_as_list = list(results)
